@@ -139,10 +139,12 @@ OBLIGATIONS += [
 # ---------------------------------------------------------------- C07
 EXPLANATION["C07"] = ("Partial: address algebra only. E2 executes from_pubkey_hash_impl, set_chain_params_impl, from_pubkey_impl and to_unlocking_script_impl with SHA256D/HASH160 uninterpreted: "
                       "prefix / hash / checksum = SHA256D(prefix||hash)[0..4] for every prefix and hash; an address accepts exactly its own key (HASH160(key) == hash) for every prefix. "
-                      "Base58/WIF strings, SEC1 validation and (de)compression are outside (string machinery, EC arithmetic).")
+                      "Plus the WIF payload layout of from_wif (key bytes and compression flag exactly as encoded, for every key). Base58 arithmetic, to_wif's string formatting, SEC1 validation and (de)compression are outside.")
 OBLIGATIONS += [
     M("C07", "c07_address_algebra", {"q": "address"}, ["P2PKHAddress::from_pubkey_hash_impl", "P2PKHAddress::set_chain_params_impl", "P2PKHAddress::from_pubkey_impl", "P2PKHAddress::to_unlocking_script_impl", "PublicKey::to_bytes_impl"],
       "all 20-byte hashes, all prefix bytes, all 33-byte keys (opaque); hashes uninterpreted; asm/hex rendering opaque", cost=1),
+    M("C07", "c07_wif_layout", {"q": "wif"}, ["PrivateKey::from_wif_impl (+is_compressed)", "PrivateKey::from_hex_impl", "PrivateKey::from_bytes_impl", "PrivateKey::compress_public_key"],
+      "decoded payload version || 32 symbolic key bytes [|| 0x01] || SHA256D checksum, both compression forms, every version byte; Base58 and hex are inverse constructors, key validity is an uninterpreted predicate", cost=1),
 ]
 
 # ---------------------------------------------------------------- C12
@@ -215,6 +217,17 @@ OBLIGATIONS += [
       stubs=("E2 decode models: Cursor reads return fresh values when enough bytes remain; bs58/hex decode, SecretKey/EncodedPoint parsing, DER, CBC/CTR construction and the EC entry points are accept-or-reject oracles; "
              "Base58 length fact: n characters decode to between 5n/7-1 and n bytes",), timeout=2400),
 ]
+
+# ---------------------------------------------------------------- structured scripts (C02 serialiser clause, C10 separator removal)
+SCRIPT_BITS_FUNCS = ["Script::to_bytes", "Script::script_bits_to_bytes (+closure, recursive)", "Script::get_script_length", "Script::remove_codeseparators", "Script::remove_codeseparators_from_bits (+closures)", "derived PartialEq on ScriptBit"]
+SCRIPT_BITS_BOUNDS = ("8 script shapes over all five element kinds (opcode, direct push 1..75 bytes, PUSHDATA1/2/4 with payloads of symbolic length up to their maximum, IF/NOTIF with missing/empty/non-empty else branch, "
+                      "nesting depth 2, coinbase, empty script); code separators at top level and inside both branches")
+OBLIGATIONS.append(M("C01", "c01_script_serialiser", {"q": "script_bits", "name": "script_bits_c01"}, SCRIPT_BITS_FUNCS, SCRIPT_BITS_BOUNDS, cost=1))
+OBLIGATIONS.append(M("C02", "c02_script_serialiser", {"q": "script_bits", "name": "script_bits_c02"}, SCRIPT_BITS_FUNCS, SCRIPT_BITS_BOUNDS, cost=1))
+OBLIGATIONS.append(M("C10", "c10_remove_codeseparators", {"q": "script_bits", "name": "script_bits_c10"}, SCRIPT_BITS_FUNCS, SCRIPT_BITS_BOUNDS, cost=1))
+EXPLANATION["C02"] += (" E2 on STRUCTURED scripts (lists of ScriptBit values): Script::to_bytes/script_bits_to_bytes emits exactly the script wire format for every element kind incl. nested "
+                       "conditionals with missing/empty else branches and PUSHDATA1/2/4 payloads of symbolic length.")
+EXPLANATION["C10"] += (" Separately, on structured scripts, remove_codeseparators is shown to delete exactly the OP_CODESEPARATOR elements, also inside conditional branches.")
 
 
 def for_property(pid):
